@@ -37,12 +37,14 @@ Fixpoint xceval (consts locals : list pvalue) (e : cexpr) : res pvalue :=
 Inductive xinstr :=
 | XIConst (c : nat) | XIGetLocal (i : nat)
 | XIBinOp (t : tok) | XIEqual | XINotEqual | XIUnary (t : tok)
-| XIAndJump (target : Z) | XIOrJump (target : Z) | XIJumpFalsy (target : Z) | XIJump (target : Z).
+| XIAndJump (target : Z) | XIOrJump (target : Z) | XIJumpFalsy (target : Z) | XIJump (target : Z)
+| XISetLocal (i : nat) | XIDefineLocal (i : nat) | XIPop | XIReturn.   (* statements: StmtComp.v *)
 
 Definition xisize (i : xinstr) : Z :=
   match i with
   | XIConst _ => 3 | XIGetLocal _ => 2 | XIBinOp _ => 2 | XIEqual => 1 | XINotEqual => 1 | XIUnary _ => 2
   | XIAndJump _ | XIOrJump _ | XIJumpFalsy _ | XIJump _ => 5
+  | XISetLocal _ | XIDefineLocal _ => 2 | XIPop => 1 | XIReturn => 2
   end.
 
 Fixpoint xcsize (l : list xinstr) : Z := match l with [] => 0 | i :: r => xisize i + xcsize r end.
@@ -79,55 +81,66 @@ Fixpoint xfetch (code : list xinstr) (pc : Z) : option xinstr :=
   | i :: r => if pc =? 0 then Some i else if pc <? xisize i then None else xfetch r (pc - xisize i)
   end.
 
-Inductive mstate := XRunning (pc : Z) (stack : list pvalue) | XThrown (e : uerror) | XCrashed.
+Inductive mstate := XRunning (pc : Z) (locals stack : list pvalue) | XThrown (e : uerror) | XCrashed | XReturned (v : pvalue).
 
-Definition xmstep (consts locals : list pvalue) (code : list xinstr) (pc : Z) (st : list pvalue) : mstate :=
+Fixpoint set_local (l : list pvalue) (i : nat) (v : pvalue) : option (list pvalue) :=
+  match l, i with
+  | [], _ => None
+  | _ :: t, O => Some (v :: t)
+  | h :: t, S i => match set_local t i v with Some t' => Some (h :: t') | None => None end
+  end.
+
+Definition xmstep (consts : list pvalue) (code : list xinstr) (pc : Z) (locals st : list pvalue) : mstate :=
   match xfetch code pc with
   | None => XCrashed
   | Some i =>
       match i, st with
-      | XIConst c, _ => match nth_error consts c with Some v => XRunning (pc + 3) (v :: st) | None => XCrashed end
-      | XIGetLocal k, _ => match nth_error locals k with Some v => XRunning (pc + 2) (v :: st) | None => XCrashed end
+      | XIConst c, _ => match nth_error consts c with Some v => XRunning (pc + 3) locals (v :: st) | None => XCrashed end
+      | XIGetLocal k, _ => match nth_error locals k with Some v => XRunning (pc + 2) locals (v :: st) | None => XCrashed end
       | XIBinOp t, r :: l :: st' =>
           match binop t l r with
-          | Ok v => XRunning (pc + 2) (v :: st') | Err e => XThrown e | _ => XCrashed
+          | Ok v => XRunning (pc + 2) locals (v :: st') | Err e => XThrown e | _ => XCrashed
           end
-      | XIEqual, r :: l :: st' => XRunning (pc + 1) (vm_equal l r :: st')
-      | XINotEqual, r :: l :: st' => XRunning (pc + 1) (vm_not_equal l r :: st')
+      | XIEqual, r :: l :: st' => XRunning (pc + 1) locals (vm_equal l r :: st')
+      | XINotEqual, r :: l :: st' => XRunning (pc + 1) locals (vm_not_equal l r :: st')
       | XIUnary t, v :: st' =>
           match unop t v with
-          | Ok w => XRunning (pc + 2) (w :: st') | Err e => XThrown e | _ => XCrashed
+          | Ok w => XRunning (pc + 2) locals (w :: st') | Err e => XThrown e | _ => XCrashed
           end
       | XIAndJump t, v :: st' =>
           match is_falsy v with
-          | Some true => XRunning t st            (* keep the value, jump *)
-          | Some false => XRunning (pc + 5) st'   (* pop, fall through *)
+          | Some true => XRunning t locals st            (* keep the value, jump *)
+          | Some false => XRunning (pc + 5) locals st'   (* pop, fall through *)
           | None => XThrown (mkErr [] [])
           end
       | XIOrJump t, v :: st' =>
           match is_falsy v with
-          | Some true => XRunning (pc + 5) st'
-          | Some false => XRunning t st
+          | Some true => XRunning (pc + 5) locals st'
+          | Some false => XRunning t locals st
           | None => XThrown (mkErr [] [])
           end
       | XIJumpFalsy t, v :: st' =>
           match is_falsy v with
-          | Some true => XRunning t st'
-          | Some false => XRunning (pc + 5) st'
+          | Some true => XRunning t locals st'
+          | Some false => XRunning (pc + 5) locals st'
           | None => XThrown (mkErr [] [])
           end
-      | XIJump t, _ => XRunning t st
+      | XIJump t, _ => XRunning t locals st
+      | XISetLocal k, v :: st' | XIDefineLocal k, v :: st' =>
+          match set_local locals k v with Some l' => XRunning (pc + 2) l' st' | None => XCrashed end
+      | XIPop, _ :: st' => XRunning (pc + 1) locals st'
+      | XIReturn, v :: _ => XReturned v
       | _, _ => XCrashed
       end
   end.
 
 (* run until the program counter reaches `stop` *)
-Fixpoint xmrun (fuel : nat) (consts locals : list pvalue) (code : list xinstr) (stop : Z) (s : mstate) : mstate :=
+Fixpoint xmrun (fuel : nat) (consts : list pvalue) (code : list xinstr) (stop : Z) (s : mstate) : mstate :=
   match fuel with
   | O => s
   | S fuel =>
       match s with
-      | XRunning pc st => if pc =? stop then s else xmrun fuel consts locals code stop (xmstep consts locals code pc st)
+      | XRunning pc locals st => if pc =? stop then s else xmrun fuel consts code stop (xmstep consts code pc locals st)
       | _ => s
       end
   end.
